@@ -1,16 +1,16 @@
 SPECIFICATION Spec
 CONSTANTS
-  Role = "prop"
-  SPE = 4
+  Role = "att"
+  SPE = 6
   EPP = 2
-  MaxEpoch = 2
-  Validators = {1, 2}
-  Actives = {{1}, {1, 2}}
+  MaxEpoch = 1
+  Validators = {1}
+  Actives = {{1}}
   StartSlots = {0}
   Lags = {0}
   MaxReorgs = 1
   MaxIdx = 1
-  MaxFails = 0
+  MaxFails = 1
   InitDuties = FALSE
   Weaken = "none"
 INVARIANT TypeOK
